@@ -374,6 +374,26 @@ UNITS.append(Unit('rdr.read_file_header', ('CdnsReader::read_file_header', None)
                        '(count and form stored); every decoder error propagates; a format error of its own is raised only for a wrong outer length or ID. '
                        'The characters of the literal "C-DNS" are not inspected'))
 
+# constructor of the reader: the file header is read (and its errors - end of input included - propagate) before any block can be asked for
+RCT_C = """
+__CPROVER_requires(g_exc == 0 && H.step == 0 && !H.seq_bad && !H.raised)
+__CPROVER_assigns(H, g_lit, g_exc)
+__CPROVER_ensures(g_exc == 0 || g_exc == EXC_CdnsDecoderException || g_exc == EXC_CdnsDecoderEnd)
+__CPROVER_ensures(!H.seq_bad && (H.raised ==> g_exc != 0))
+__CPROVER_ensures(g_exc == 0 ==> H.step == 4)
+__CPROVER_ensures(g_exc == 0 ==> ($ret.m_blocks_count == H.blocks_len && ($ret.m_indef_blocks != 0) == (H.blocks_indef != 0)))
+"""
+UNITS.append(Unit('rdr.ctor', ('@_ZN4CDNS10CdnsReaderC1ERSi', None), contract=RCT_C, prelude='hdr.h', extern_records=EXT,
+                  opaque={'std::basic_istream': 'struct istream_s', 'std::istream': 'struct istream_s'},
+                  stubs=['cstring__[a-z]+', 'seq_[A-Za-z0-9_]+__\\w+'], replace=['rdr.read_file_header'],
+                  gen_stubs=[(r'^CdnsDecoder__ctor__\w+$', '  struct CdnsDecoder d; return d;'), (r'^FilePreamble__ctor__\w+$', '  struct FilePreamble f; return f;')],
+                  auto_inline=[r'(?!CdnsDecoder|FilePreamble)[A-Za-z]+__ctor__\w+', r'[A-Za-z]+__default', r'[A-Za-z]+__op_assign\w*', r'[A-Za-z]+__reset'],
+                  extra_c='struct seq_u8 g_OpCodesDefault; struct seq_u16 g_RrTypesDefault;\nstruct istream_s { char opaque; };\n',
+                  setup='  static struct istream_s in;\n  H.step = 0; H.seq_bad = 0; H.raised = 0;\n', args=['&in'], props=['C05', 'C08'], timeout=300,
+                  post='  if (g_exc != 0) { CANARY("decoder exception reachable"); }',
+                  note='a reader exists only after its file header has been read completely: the constructor calls read_file_header unconditionally and lets every '
+                       'decoder error (end of input on an empty or unreadable stream included) propagate'))
+
 TRUSTED_BASE = [
     'A13(ii) byte-layer contracts of CdnsDecoder (dec.* units) reduced to a token stream: each read call delivers one value of the kind asked for or raises',
     'A4 optional, A5 string (length, content identity), A6 vector as abstract sequence with one watched element',
